@@ -5,11 +5,13 @@ package gcsemu
 // snapshots of the store.
 
 import (
+	"bufio"
 	"bytes"
 	"compress/gzip"
 	"context"
 	"encoding/json"
 	"io"
+	"mime/multipart"
 	"net/http"
 	"sync"
 	"time"
@@ -25,6 +27,12 @@ func vStubs() map[string]interface{} {
 		m[k] = v
 	}
 	for k, v := range vFileStubs() {
+		m[k] = v
+	}
+	for k, v := range vMultipartStubs() {
+		m[k] = v
+	}
+	for k, v := range vBatchStubs() {
 		m[k] = v
 	}
 	return m
@@ -131,6 +139,12 @@ func stubReadAll(r io.Reader) ([]byte, error) {
 	if b, ok := r.(*vBody); ok {
 		return b.raw, nil
 	}
+	if p, ok := r.(*multipart.Part); ok {
+		return vPartBytes(p), nil
+	}
+	if b, ok := r.(*bufio.Reader); ok {
+		return vReadAllBufio(b), nil
+	}
 	if zr, ok := r.(*gzip.Reader); ok {
 		vJSONMu.Lock()
 		b := vGzBody[zr]
@@ -147,7 +161,8 @@ type vBody struct {
 	wire   []byte // native replay only: the bytes on the wire
 	built  bool
 	off    int
-	gz     bool // the wire bytes are a gzip stream of raw / of the JSON document
+	parts  []vPartData // a multipart/related body (boundary vBoundary)
+	gz     bool        // the wire bytes are a gzip stream of raw / of the JSON document
 	raw    []byte
 	decode func(v interface{}) error
 }
